@@ -62,6 +62,21 @@ Proof. exact Apply2P.apply_rename_fault_rolled_back. Qed.
 (* the hypotheses are necessary: Apply2P.RollbackExamples.second_fault_defeats_rollback (a second fault during
    rollback) and case_only_probe_left_behind (a fault at the unlink of the case-only probe) *)
 
+(* a planned file that cannot be read - missing, not a regular file, not valid UTF-8 (the scanner plans text in legacy encodings,
+   apply reads files as strings) - fails the apply before the first operation, whatever else the plan holds *)
+Theorem C04_unreadable_file_changes_nothing : forall inj p t f,
+  first_conflict t (ap_renames p) = None ->
+  first_unreadable t (edits_by_file (ap_hunks p)) = Some f ->
+  r_ok (apply_core inj p t) = false /\ r_fail (apply_core inj p t) = Some (FailRead f) /\
+  r_fs (apply_core inj p t) = t /\ r_trace (apply_core inj p t) = [].
+Proof. exact unreadable_file_changes_nothing. Qed.
+
+Theorem C04_unreadable_file_is_found : forall t files f es,
+  In (f, es) files -> readable t f = false -> exists g, first_unreadable t files = Some g.
+Proof. exact first_unreadable_some. Qed.
+
+Print Assumptions C04_unreadable_file_changes_nothing.
+Print Assumptions C04_unreadable_file_is_found.
 Print Assumptions C04_refuted_second_file.
 Print Assumptions C04_refuted_stale.
 Print Assumptions C04_fail_before_first_op_changes_nothing.
